@@ -4,5 +4,3 @@ import PkgProofs.Lemmas.VerOrd
 import PkgProofs.Lemmas.RxSound
 import PkgProofs.Lemmas.Dec
 import PkgProofs.Lemmas.Assoc
-import PkgProofs.Props.C17
-import PkgProofs.Props.C18
